@@ -2334,8 +2334,9 @@ def extend(
             raise ValueError('Number of qubits N smaller than highest qubit '
                              + f'index + 1 = {last_qubit + 1}')
 
-    if len(pulse_to_qubit_mapping) == 1:
-        # return input pulse if not mapped to another qubit
+    if (len(pulse_to_qubit_mapping) == 1 and additional_noise_Hamiltonian is None
+            and identifier_mappings[0] is None):
+        # return input pulse if not mapped to another qubit (and nothing else is to be done)
         if multi_qubit_idx:
             if N == len(multi_qubit_idx[0]):
                 warn('Single multi-qubit pulse given and mapped to its '
